@@ -195,7 +195,7 @@ def run_case(spec, workdir):
 
         fn = lambda: cascade_images(pio, depth, averaging_merger, parallel=par)
     if par > 1:
-        outcome, info = models.run_stage(fn, log, "walk", watchdog=200)
+        outcome, info = models.run_stage(fn, log, "walk", watchdog=200, hostile=dict(seed=spec["seed"], p=0.03, files=("pyramid.py", "par_util.py", "merge.py"), lo=0.001, hi=0.06, budget=1.0) if spec["seed"] % 4 == 0 else None)
         if outcome == "returned" and spec["via"] == "builder" and (0, 0, 0) in tr:
             # the forked child's Builder is gone; redo the metadata step in this process (serial, idempotent on the tiles)
             b.cascade(parallel=1)
@@ -205,6 +205,7 @@ def run_case(spec, workdir):
         fn()
         evlog.ev("stage_ret")
         outcome = "returned"
+    nsched = sum(1 for r in evlog.read(log) if r["k"] == "sched")
     evlog.close_log()
     if outcome == "watchdog":
         return dict(status="inconclusive", detail="watchdog")
@@ -274,7 +275,7 @@ def run_case(spec, workdir):
             probs.append("after the second cascade (%s) WTML DataMin/DataMax = %s/%s, full-resolution range %r/%r" % (spec["second_round"], iset.get("DataMin"), iset.get("DataMax"), lo, hi))
         wt += 1
     distinct_ranges = len({tr[p] for p in leaves if p in tr})
-    res = dict(counters={"pyramids": 1, "headers_checked": n, "wtml_checked": wt, "writer_" + spec["writer"]: 1, "par_%d" % par: 1},
+    res = dict(counters={"pyramids": 1, "headers_checked": n, "wtml_checked": wt, "writer_" + spec["writer"]: 1, "par_%d" % par: 1, "statement_delays": nsched},
                nontrivial=(depth >= 2 or distinct_ranges >= 2) and len(tr) >= 2,
                sample=dict(spec=spec, depth=depth, leaves=len(leaves), root_range=tr.get((0, 0, 0))))
     if probs:
